@@ -6,6 +6,8 @@ Render -> parse round trips, every sub-space enumerated completely against the r
                                         footer+trailing_ignore, header_substitute)
   delim      parse_delimited_table      delim x header_delim x max_splits x strip/pad x raw_line_key x rows x env
   kv         split_kv_pairs             documents over 13 sharp line symbols (incl. empty values) x every option combination
+  kv-filter  split_kv_pairs             pair / inline comment / whole-line comment with the filter word (or the separator) in the
+                                        pair only, the comment only, both, neither x filters incl. the comment character itself
   active     get_active_lines           documents over 9 line symbols x comment_char
   unsplit    unsplit_lines              logical lines split into pieces x cont_char x keep_cont_char
   optlist    optlist_to_dict            option sequences x opt_sep x kv_sep x strip_quotes
@@ -53,12 +55,12 @@ BOUNDS = {
     "quick": {"ini_full_option_structure_for": "sections (s1, S 2) and single sections; other name pairs <= 1 option per block",
               "fixed_cols": 4, "fixed_full_cols": 2, "fixed_rows": 2, "fixed_env_rows": 1, "delim_cols": 3, "delim_full_cols": 2,
               "delim_rows": 2,
-              "kv_lines": 4, "active_lines": 4, "unsplit_logical": 2, "optlist_opts": 3,
+              "kv_lines": 4, "kv_filter_lines": 3, "active_lines": 4, "unsplit_logical": 2, "optlist_opts": 3,
               "ini_sections": 2, "ini_opts_per_block": 2, "ini_default_opts": 2, "ini_fillers": 1,
               "search_rows": 2, "search_conditions": 2},
     "thorough": {"fixed_cols": 4, "fixed_full_cols": 3, "fixed_rows": 2, "fixed_env_rows": 2, "delim_cols": 3,
                  "delim_full_cols": 3, "delim_rows": 2,
-                 "kv_lines": 5, "active_lines": 5, "unsplit_logical": 3, "optlist_opts": 3,
+                 "kv_lines": 5, "kv_filter_lines": 4, "active_lines": 5, "unsplit_logical": 3, "optlist_opts": 3,
                  "ini_sections": 2, "ini_opts_per_block": 2, "ini_default_opts": 3, "ini_fillers": 2,
                  "search_rows": 3, "search_conditions": 2},
 }
@@ -554,6 +556,30 @@ def kv_cases(prefix, maxlen):
                                        "split_on": so, "use_partition": up, "ordered": od}
 
 
+# filter_string / split_on must look at the ACTIVE text (comments already removed, as the docstring says and as
+# "commented lines never contribute data" demands): the word `w` occurs only in the pair, only in the inline
+# comment, in both, in neither, or in a whole-line comment; the separator occurs only inside a comment
+KVF_LINES = ["w = 1", "a = w", "a = 1", "w = 1 # c", "a = 1 # w", "a = w # w", "a = 1 # c", "a = 1 #w=2",
+             "# w = 1", "# c", "", "a = 1 ; w", "nosep # x = 1", "wsep # c"]
+KVF_FILTERS = [None, "w", "#", "# w", "1 #", "=", "", "w = 1"]
+
+
+def kvf_cases(first, maxlen):
+    """Documents of 1..maxlen lines over KVF_LINES that start with line `first` (None: the empty document)
+    x comment_char x filter_string x split_on x use_partition."""
+    if first is None:
+        docs = [[]]
+    else:
+        docs = ([KVF_LINES[first]] + list(t) for n in range(0, maxlen) for t in itertools.product(KVF_LINES, repeat=n))
+    for lines in docs:
+        for cc in ("#", ";", None):
+            for fs in KVF_FILTERS:
+                for so in ("=", ":"):
+                    for up in (False, True):
+                        yield {"kind": "kv", "lines": lines, "comment_char": cc, "filter_string": fs,
+                               "split_on": so, "use_partition": up, "ordered": True}
+
+
 def active_cases(maxlen):
     for n in range(0, maxlen + 1):
         for t in itertools.product(ACTIVE_LINES, repeat=n):
@@ -582,7 +608,7 @@ def unsplit_cases(max_logical, max_pieces):
 
 
 OPT_KEYS = ["rw", "ro", "size"]
-OPT_VALUES = [None, "v", "", "a=b", "=b", "\"q r\"", "'q'", "\"q'", "\"", "\"\""]
+OPT_VALUES = [None, "v", "", "a=b", "=b", "\"q r\"", "'q'", "\"q'", "\"", "\"\"", "\"a=b\""]
 
 
 def optlist_cases(maxopts, shard, of):
@@ -918,6 +944,7 @@ def units(tier, seed):
             us.append({"part": "delim", "headers": hs, "delims": [None, ",", "|", ":"]})
     us.append({"part": "kv", "prefix": None})
     us += [{"part": "kv", "prefix": [i]} for i in range(len(KV_LINES))]
+    us += [{"part": "kv-filter", "first": i} for i in [None] + list(range(len(KVF_LINES)))]
     us.append({"part": "active"})
     us.append({"part": "unsplit"})
     us += [{"part": "optlist", "shard": i, "of": 4} for i in range(4)]
@@ -982,6 +1009,8 @@ def unit_cases(unit, tier):
             return itertools.chain.from_iterable(
                 _kv_exact(list(t)) for n in range(0, plen) for t in itertools.product(range(len(KV_LINES)), repeat=n))
         return kv_cases(unit["prefix"], b["kv_lines"])
+    if p == "kv-filter":
+        return kvf_cases(unit["first"], b["kv_filter_lines"])
     if p == "active":
         return active_cases(b["active_lines"])
     if p == "unsplit":
